@@ -182,7 +182,10 @@ def buildComps (w : World) (e : Entity) : List (Nat × Int) → Out World
       | .ok r =>
         (match r.val with
          | .wrongGen => .panic "builder: insert(..).unwrap() on Err"
-         | _ => buildComps ((w.setStore k r.st).destroy r.destroyed) e cs)
+         | _ =>
+           -- the `Ok(Some(old))` of an overwriting insert is dropped by the builder
+           buildComps ((w.setStore k r.st).destroy
+             (r.destroyed ++ (match r.val with | .replaced old => [old] | _ => []))) e cs)
       | .panic why => .panic why
       | .ub why => .ub why
 
